@@ -5,4 +5,5 @@ let () =
   | _ :: "harr" :: _ -> D_harr.run ()
   | _ :: "str" :: _ -> D_str.run ()
   | _ :: "hashfn" :: _ -> D_hashfn.run ()
+  | _ :: "vec" :: _ -> D_vec.run ()
   | _ -> prerr_endline "usage: driver <area> < ops"; exit 2
